@@ -1,6 +1,7 @@
 #!/bin/bash
-# setup_cmd: build the simulator from files on disk only (offline), short determinism self-test
+# setup_cmd: build the simulator (and the mlar binary used by C16/C17) from files on disk only (offline)
 set -e
 cd "$(dirname "$0")"
 ./check --build
-echo "setup: simulator built"
+./tools/build_mlar.sh
+echo "setup: simulator and mlar built"
